@@ -14,13 +14,54 @@ def handleWire (op : String) (args : List String) : Option String :=
   | "wire.decode", [h, e, ts] =>
     match bytesOfHex h, (Sexp.parse e).bind Env.ofSexp, (Sexp.parse ts).bind tysOfSexp with
     | some bs, some env, some tys =>
-      let r := showVals (decodeArgs bs env tys)
-      some (r ++ "\t" ++ r)
+      -- column 1: with the implementation's (test-suite pinned) failure on an options-all-the-way-down
+      -- expected type; column 2: the coercion relation of the spec; column 3: tags for known findings
+      let sp := showVals (decodeArgs bs env tys true true)
+      let im := showVals (decodeArgs bs env tys false false)
+      let t1 := if showVals (decodeArgs bs env tys false true) ≠ sp then ["mu-opt"] else []
+      let t2 := if showVals (decodeArgs bs env tys true false) ≠ sp then ["empty-record-ref"] else []
+      some (im ++ "\t" ++ sp ++ (if im ≠ sp then "\t" ++ ",".intercalate (t1 ++ t2) else ""))
     | _, _, _ => none
   | "wire.decodeSelf", [h] =>
     (bytesOfHex h).map fun bs =>
-      let r := showVals (decodeSelf bs)
-      r ++ "\t" ++ r
+      let sp := showVals (decodeSelf bs true true)
+      let im := showVals (decodeSelf bs false false)
+      let t1 := if showVals (decodeSelf bs false true) ≠ sp then ["mu-opt"] else []
+      let t2 := if showVals (decodeSelf bs true false) ≠ sp then ["empty-record-ref"] else []
+      im ++ "\t" ++ sp ++ (if im ≠ sp then "\t" ++ ",".intercalate (t1 ++ t2) else "")
+  | "wire.roundtrip", [e, ts, vs] =>
+    match (Sexp.parse e).bind Env.ofSexp, (Sexp.parse ts).bind tysOfSexp, (Sexp.parse vs).bind valsOfSexp with
+    | some env, some tys, some vals =>
+      let model := match encodeArgs env tys vals with
+        | .ok bs => (match decodeArgs bs env tys false false with
+            | .ok back => "ok " ++ hexOfBytes bs ++ " " ++ valsCanon back
+            | .err _ => "ok " ++ hexOfBytes bs ++ " undecodable"
+            | .panic s => "panic " ++ s)
+        | .err _ => "err"
+        | .panic s => "panic " ++ s
+      -- specification: the message reads back as the annotated arguments
+      let spec := match encodeArgs env tys vals with
+        | .ok bs =>
+          (match mapOutcomes (fun (p : Val × Ty) => annotate true env defaultFuel p.1 p.2) (vals.zip tys) with
+           | .ok ann => "ok " ++ hexOfBytes bs ++ " " ++ valsCanon ann
+           | _ => "err")
+        | .err _ => "err"
+        | .panic s => "panic " ++ s
+      let tag := match encodeArgs env tys vals with
+        | .ok bs => if showVals (decodeArgs bs env tys true false) ≠ showVals (decodeArgs bs env tys true true)
+                    then "\tempty-record-ref" else ""
+        | _ => ""
+      some (model ++ "\t" ++ spec ++ tag)
+    | _, _, _ => none
+  | "wire.annotate", [fp, e, t, v] =>
+    match (Sexp.parse e).bind Env.ofSexp, (Sexp.parse t).bind Ty.ofSexp, (Sexp.parse v).bind Val.ofSexp with
+    | some env, some ty, some val =>
+      let r := match annotate (fp = "true") env defaultFuel val ty with
+        | .ok v' => "ok " ++ v'.canon
+        | .err _ => "err"
+        | .panic s => "panic " ++ s
+      some (r ++ "\t" ++ r)
+    | _, _, _ => none
   | "wire.header", [h] =>
     (bytesOfHex h).map fun bs =>
       let r := match parseHeader bs with
